@@ -2,13 +2,21 @@
 """Regenerates MANIFEST.json from the table below (kept in one place so it stays valid)."""
 import json, os, subprocess
 V = os.path.dirname(os.path.abspath(__file__))
-fix_commits = ['3033bba']
+fix_commits = [l.split()[3] for l in json.load(open(os.path.join(V, 'known_findings.json')))['fixed']]
 CLAIMED = {
  'C13': dict(level='proof', design='DESIGN.md section 4 (C13)',
    text='Deductive proof with CBMC code contracts (goto-instrument --dfcc): every buffer-variant conversion function of the 8 units is enforced against a contract generated from the property statement, callers against callee contracts, for all 2^8..2^64 values, no loop and no unwinding bound. Proof is the right level because one wrong constant in the hand-unrolled per-decade code is invisible to sampled tests.',
    note='Trusted: CBMC C++ front end on the shadow TU (extraction rules R-ANON/R-AUTO, hit counts and g++ type witnesses checked per run), CBMC bit-vector semantics, MiniSat/z3, stand-in <cstdint>/<cstring>/<string>. Not under contract: the enable_if dispatch templates int2string<T>/grouped_int2string<T>, GroupedInt, stringTo<T> (round trip).',
    technique='contract-based deductive verification: CBMC code contracts enforced per function with goto-instrument --dfcc, callees replaced by contracts, SAT/z3 back ends'),
 }
+CLAIMED['C10'] = dict(level='proof', design='DESIGN.md section 4 (C10)',
+   text='Deductive proof per capacity instance (L = 1, 2, 3, 8 quick; + 16 thorough): every in-reach public member of FixedString<L> is enforced with goto-instrument --dfcc against the contract "requires well-formed, arguments valid for what the overload documents, positions and counts unconstrained size_t; assigns only the object (and dest/other); ensures well-formed, no-NUL-stored => length equals strlen", with all CBMC memory-safety checks and the ISO preconditions of mem*/str* as obligations. An inductive representation invariant covers all operation sequences; wrap-around of position + count near 2^64 is an input no test enumerates.',
+   note='Per-instance, not for all L; 255/256 and 65535/65536 boundaries not reached. Source strings <= L+3. Trusted: CBMC C++ front end on the shadow header (drops: iterator classes and overloads, cross-capacity template overloads, sprintf, constructors, stream output -- listed in the evidence), CBMC mem*/str* models, stand-in <string>. Eleven genuine defects found by this check were repaired by fix: commits (known_findings.json).',
+   technique='contract-based deductive verification: representation invariant + frame contract per method, CBMC code contracts (goto-instrument --dfcc), SAT back end, unwinding assertions for capacity-bounded loops')
+CLAIMED['C11'] = dict(level='proof', design='DESIGN.md section 4 (C11)',
+   text='Deductive proof per small capacity instance (L = 3 for every method, L = 5 for mutators and compare in quick; 2, 3, 5, 8 thorough): content postconditions written from the C++ standard\'s description of basic_string (whole view: length and every character equals the std::string result cut at L; observers return std::string\'s result; == and != complementary) enforced with goto-instrument --dfcc for all contents and all in-domain arguments. Deviations that are genuine and not repaired are excluded as input regions and reported as KNOWN-FINDING.',
+   note='Per-instance; source strings <= L+3 characters (bounded); NUL-free contents (the property quantifies over printable contents). Iteration in both directions, cross-capacity and iterator overloads, constructors not under contract. Trusted base as C10. Four open known findings (empty search string, empty character set for *_not_of, start position not clamped in the find_last family, empty ranges in the two-range compare).',
+   technique='contract-based deductive verification: content postconditions (std::string semantics as finite expansions over ghost pre-state), CBMC code contracts (goto-instrument --dfcc), SAT back end')
 NA = {}
 def main():
     props = [json.loads(l) for l in open(os.path.join(V, 'properties.jsonl'))]
